@@ -87,7 +87,7 @@ func faultSite(stack string) string {
 
 func TestC17(t *testing.T) {
 	r := hx.Start(t, "C17")
-	r.SetRule("G-hostile under three configurations (default, XGo-builtin, bare = no node interpreter): (a) a deterministic grid of ~150 operation templates x 56 operand kinds (types, no-value and multi-value calls, nil, >64-bit and 1e400 constants, builtins, generic functions, blank ...), sharded, thorough tier enumerates it completely; (b) random template instantiations, extreme constant expression trees (shift counts up to 1<<63, negative and fractional counts, 10^4-digit literals, typed boundary constants) in expression and declaration contexts; (c) nesting 50..3000 deep of parentheses, unary/binary chains, blocks, closures, if/else, call chains, pointer/slice types, constant chains; (d) type-breaking mutants of G-valid programs. Oracle: a recovered panic whose value is a runtime.Error (or not an error/string at all) is a violation; a worker that dies (fatal error, address-space limit 6 GiB) or runs one case > 180 s is re-run alone and is a violation only if it dies again; nesting families must not slow down by more than x100 per x4 size. Non-trivial: the builder rejected the case or the case is from (b)/(c); distinct by source.")
+	r.SetRule("G-hostile under three configurations (default, XGo-builtin, bare = no node interpreter): (a) a deterministic grid of ~150 operation templates x 56 operand kinds (types, no-value and multi-value calls, nil, >64-bit and 1e400 constants, builtins, generic functions, blank ...), sharded, thorough tier enumerates it completely; (b) random template instantiations, extreme constant expression trees (shift counts up to 1<<63, negative and fractional counts, 10^4-digit literals, typed boundary constants) in expression and declaration contexts; (c) nesting 50..3000 deep of parentheses, unary/binary chains, blocks, closures, if/else, call chains, pointer/slice types, constant chains; (d) type-breaking mutants of G-valid programs; (e) the extension constructs of C11 driven through the builder API without a Recorder. Oracle: a recovered panic whose value is a runtime.Error (or not an error/string at all) is a violation; a worker that dies (fatal error, address-space limit 6 GiB) or runs one case > 180 s is re-run alone and is a violation only if it dies again; nesting families must not need more than x160 the CPU time for x4 the size (best of three measurements; a cubic algorithm needs x64). Non-trivial: the builder rejected the case or the case is from (b)/(c); distinct by source.")
 	r.Assume("reported errors of any kind (HandleErr, error/string panics incl. log.Panicln TODOs) are acceptable outcomes", "time limits are only used to detect hangs, confirmed in isolation")
 	defer r.Done()
 	c17Guard(180 * time.Second)
@@ -97,6 +97,15 @@ func TestC17(t *testing.T) {
 		return sig, msg
 	}
 	if r.Replay != "" {
+		var ac c11Case
+		if err := r.ReplayInput(&ac); err == nil && ac.Feat != "" {
+			// an API construct (part e)
+			r.Eval()
+			if sig, msg, _, status := c11Eval(&ac); status == "panic" {
+				r.Report(&ac, "runtime-fault|api|"+sig, "%s", msg)
+			}
+			return
+		}
 		var c progCase
 		if err := r.ReplayInput(&c); err != nil {
 			t.Fatal(err)
@@ -213,27 +222,69 @@ func TestC17(t *testing.T) {
 			r.Nontrivial(src + cfgs[ci])
 		}
 	})
-	// scaling families
+	// (e) the extension constructs of C11 (builtin-type methods, any/map members, casts, optional
+	// parameters, aliases, enumerators, inline closures, tuples, big literals), driven through the
+	// builder API without a Recorder: whatever else they do, they must not fault.
+	r.Check(t, "api-constructs", r.N(600, 20000), func(t *rapid.T) {
+		feat := c11Feats[rapid.IntRange(0, len(c11Feats)-1).Draw(t, "feature")]
+		ch := &chooser{t: t}
+		plan := c11MakePlan(feat, ch)
+		if plan == nil {
+			return
+		}
+		c := &c11Case{Feat: feat, A: ch.rec, Note: plan.desc}
+		sig, msg, _, status := c11Run(plan)
+		r.Eval()
+		r.Class("api-construct:" + feat)
+		if status == "panic" {
+			sig = "runtime-fault|api|" + sig
+			if f := r.MatchKnown(sig); f != nil {
+				r.Known(f)
+				return
+			}
+			r.Fail(t, c, sig, "%s", msg)
+		}
+		r.Nontrivial("api:" + plan.key)
+	})
+	// Scaling families. Time is a verdict only in this form: the CPU time of this process (not the
+	// wall clock, which the other shards and anything else on the machine distort), the best of up to
+	// three measurements, and a bound (x160 per x4 size) that a cubic algorithm (x64; the printer is
+	// cubic in the nesting depth of function literals) stays well below while a quartic or exponential
+	// one does not.
 	if r.Shard == 0 {
+		cpu := func() time.Duration {
+			var ru syscall.Rusage
+			if syscall.Getrusage(syscall.RUSAGE_SELF, &ru) != nil {
+				return 0
+			}
+			return time.Duration(ru.Utime.Nano() + ru.Stime.Nano())
+		}
 		for kind := 0; kind < 10; kind++ {
-			var ts [2]time.Duration
-			for i, n := range []int{400, 1600} {
-				c := &progCase{Files: []string{gen.HostileNest(kind, n)}, Note: fmt.Sprintf("scaling kind=%d n=%d", kind, n)}
-				c17Current(r, c)
-				t0 := time.Now()
-				sig, msg, _ := c17Eval(c)
-				ts[i] = time.Since(t0)
-				r.Eval()
-				if sig != "" && r.MatchKnown(sig) == nil {
-					r.Report(c, sig, "%s", msg)
+			measure := func(report bool) (ts [2]time.Duration) {
+				for i, n := range []int{400, 1600} {
+					c := &progCase{Files: []string{gen.HostileNest(kind, n)}, Note: fmt.Sprintf("scaling kind=%d n=%d", kind, n)}
+					c17Current(r, c)
+					t0 := cpu()
+					sig, msg, _ := c17Eval(c)
+					ts[i] = cpu() - t0
+					r.Eval()
+					if report && sig != "" && r.MatchKnown(sig) == nil {
+						r.Report(c, sig, "%s", msg)
+					}
 				}
+				return ts
+			}
+			slow := func(ts [2]time.Duration) bool { return ts[1] > 3*time.Second && ts[1] > 160*ts[0] }
+			ts := measure(true)
+			for attempt := 0; attempt < 2 && slow(ts); attempt++ {
+				ts = measure(false) // confirm: a verdict needs three slow measurements in a row
 			}
 			r.Class("scaling-family")
-			if ts[1] > 3*time.Second && ts[1] > 100*ts[0] {
+			if slow(ts) {
 				c := &progCase{Files: []string{gen.HostileNest(kind, 1600)}, Note: fmt.Sprintf("scaling kind=%d", kind)}
-				r.Report(c, "superlinear", "nesting family %d: n=400 took %v, n=1600 took %v (more than x100 for x4)", kind, ts[0], ts[1])
+				r.Report(c, "superlinear", "nesting family %d: n=400 took %v CPU, n=1600 took %v CPU in three measurements (more than x160 for x4)", kind, ts[0], ts[1])
 			}
-			r.Extra(fmt.Sprintf("scaling_kind%d_ms_400_1600", kind), fmt.Sprintf("%d/%d", ts[0].Milliseconds(), ts[1].Milliseconds()))
+			r.Extra(fmt.Sprintf("scaling_kind%d_cpu_ms_400_1600", kind), fmt.Sprintf("%d/%d", ts[0].Milliseconds(), ts[1].Milliseconds()))
 		}
 	}
 }
